@@ -42,8 +42,8 @@ pub const BASE_CODES: &[&str] = &[
   "no-debugger", "no-var", "eqeqeq", "no-explicit-any", "no-empty", "no-eval", "no-console", "prefer-const",
   "no-constant-condition", "no-sparse-arrays", "no-extra-boolean-cast", "no-unused-vars", "no-inferrable-types", "no-undef",
 ];
-pub const UNKNOWN_CODES: &[&str] = &["foo-bar", "no-such-rule", "x", "no_debugger", "No-Debugger", "é-rule"];
-pub const EXT_CODES: &[&str] = &["ext-a", "ext-b", "ext/c"];
+pub const UNKNOWN_CODES: &[&str] = &["foo-bar", "Foo-Bar", "FOO-BAR", "no-such-rule", "x", "X", "no_debugger", "No-Debugger", "NO-DEBUGGER", "é-rule"];
+pub const EXT_CODES: &[&str] = &["ext-a", "EXT-A", "ext-b", "ext/c"];
 pub const ACC_CODES: &[&str] = &["ban-unused-ignore", "ban-unknown-rule-code"];
 
 #[derive(Clone, Debug)]
